@@ -39,6 +39,15 @@ def edge_matrix():
         progs.append("function main() -> void { int[] a = {1, 2, 3}; %s i = %s; echo(a[i]); }" % (t, v))
         progs.append("function main() -> void { long[] a = {1L, 2L}; %s i = %s; a[i] = 5L; echo(a[0]); }" % (t, v))
         progs.append("function main() -> void { string[] a = {\"p\", \"q\"}; %s i = %s; echo(a[i]); }" % (t, v))
+    # literals outside their type's range (every literal kind, in an initialiser, an operand, an argument, an index, an array size)
+    for lit in ("2147483648", "99999999999", "9223372036854775808L", "99999999999999999999L", "340282366920938463463374607431768211456f",
+                "1e400f" if False else "99999999999999999999999999999999999999999999.0f"):
+        progs.append("function main() -> void { echo(%s); }" % lit)
+        progs.append("function main() -> void { float x = 1.0f; echo(x + %s); }" % lit)
+    progs.append("function id(int a) -> int { return a; }\nfunction main() -> void { echo(id(2147483648)); }")
+    progs.append("function main() -> void { int[] a = {1}; echo(a[2147483648]); }")
+    progs.append("function main() -> void { int[2147483648] a; echo(1); }")
+    progs.append("function main() -> void { int x = 2147483647; x = 4294967296; echo(x); }")
     for n in ("0", "3", "(0 - 1)", "1000000"):
         progs.append("function main() -> void { final int n = %s; int[n] a; echo(n); }" % n)
     return progs
@@ -106,8 +115,11 @@ def run(chk):
     rng = chk.rng
     progs = [(s, "edge-matrix") for s in edge_matrix()]
     if not chk.thorough:
-        rng.shuffle(progs)
-        progs = progs[:700]
+        # the quick tier samples the operator x operand matrix but always keeps the out-of-range literal and array-size programs
+        keep = [p for p in progs if "main() -> void { echo(" in p[0] and "x =" not in p[0] or "2147483648" in p[0] or "4294967296" in p[0] or "final int n" in p[0]]
+        rest = [p for p in progs if p not in keep]
+        rng.shuffle(rest)
+        progs = keep + rest[:max(0, 700 - len(keep))]
     for _ in range(600 if chk.thorough else 120):
         g = proggen.Gen(rng, quantum=rng.random() < 0.3, edge=True, tracked=rng.random() < 0.2)
         progs.append((g.program(), "typed-edge"))
